@@ -3,6 +3,7 @@ Theorems: lean/MgProof/C11/Props.lean; models: lean/MgModel/C11/*.lean;
 tie B: harness/c11/seq_containers.c against the real array_list.c, stack.c,
 linked_list.c, queue.c, pointer_slot.c (+ memory_pool.c, utils.c)."""
 import itertools
+import json
 import vlib
 
 PROOFS = ["MgProof.C11.Props"]
@@ -27,6 +28,7 @@ TRUSTED = [
     "array-list indices are C ints (-2^31 <= index < 2^31)",
 ]
 
+FAST_ENV = {"ASAN_OPTIONS": vlib.ASAN_ENV["ASAN_OPTIONS"] + ":symbolize=0"}
 INT_MIN, INT_MAX = -2 ** 31, 2 ** 31 - 1
 U32 = 2 ** 32
 
@@ -459,7 +461,7 @@ def nontrivial(ops, out):
 def signature_of(ops, res):
     """identity of a failure for known-findings matching"""
     crash = res.get("crash") or ""
-    if "pointer_slot" in crash and "heap-buffer-overflow" in crash:
+    if ops and ops[0].startswith("ps_init") and "heap-buffer-overflow" in crash:
         return "pointer_slot-npot-capacity-oob"
     if "array_list.c" in crash and "negation of -2147483648" in crash:
         return "array_list-get_index-int-min-ub"
@@ -490,8 +492,20 @@ def main(ctx):
         ctx.broken.append("harness-build: " + str(e)[:500])
         return
     cases = gen_cases(ctx)
+    # A broken tree can crash thousands of cases; symbolising every sanitizer report costs
+    # ~0.4 s each, so the bulk run is unsymbolised and the (few) replays are re-run afterwards
+    # with symbolisation to carry a readable stack.
     vlib.seq_correspondence(ctx, hcmd, dcmd, cases, nontrivial=nontrivial, keep_prefix=1,
-                            signature_of=signature_of)
+                            signature_of=signature_of if ctx.known else None, env=FAST_ENV)
+    for path, found in ctx.violations:
+        try:
+            r = json.load(open(path))
+            if found and r.get("ops") and r.get("impl_crash"):
+                r["impl_crash_symbolized"] = (vlib.run_one(hcmd, r["ops"])["crash"] or "")[:3000]
+                with open(path, "w") as f:
+                    f.write(json.dumps(r, indent=1, sort_keys=True, default=str))
+        except (OSError, ValueError):
+            pass
     ctx.cov["exhaustive"] = True
     ctx.cov["explanation"] = ("exhaustive=true refers to the bounded history spaces described in rule "
                               "(depths: quick 3-5, thorough 4-7); the theorems are unbounded")
